@@ -7,6 +7,7 @@ import (
 	"go/format"
 	"go/parser"
 	"go/token"
+	"go/types"
 	"io"
 	"io/ioutil"
 	"os"
@@ -30,6 +31,16 @@ type generateState struct {
 	outputStructCount  int
 	outputEnums        map[string]struct{}
 	requiresJSONImport bool
+}
+
+// goTypeName returns the Go identifier used for a GraphQL enum type: its name, or, if that is a Go
+// keyword, a predeclared identifier (int, string, error, ...) or the name of the json import, the
+// name with an underscore appended.
+func goTypeName(name string) string {
+	if token.IsKeyword(name) || types.Universe.Lookup(name) != nil || name == "json" {
+		return name + "_"
+	}
+	return name
 }
 
 func fieldName(name string) string {
@@ -74,32 +85,33 @@ func (s *generateState) generateType(t schema.Type, selections []ast.Selection, 
 		}
 		ret = "[]" + gen
 	case *schema.EnumType:
+		typeName := goTypeName(t.Name)
 		if _, ok := s.outputEnums[t.Name]; !ok {
-			s.output += "type " + t.Name + " string\n\nconst (\n"
+			s.output += "type " + typeName + " string\n\nconst (\n"
 			values := make([]string, 0, len(t.Values))
 			for k := range t.Values {
 				values = append(values, k)
 			}
 			sort.Strings(values)
-			used := map[string]struct{}{t.Name: {}}
+			used := map[string]struct{}{typeName: {}}
 			for _, k := range values {
 				parts := strings.Split(k, "_")
 				for i, part := range parts {
 					parts[i] = strings.Title(strings.ToLower(part))
 				}
-				name := t.Name + strings.Join(parts, "")
+				name := typeName + strings.Join(parts, "")
 				if _, ok := used[name]; ok {
 					// values such as RED and red share a camel-cased name: keep the value's own spelling
-					name = t.Name + "_" + k
+					name = typeName + "_" + k
 				}
 				used[name] = struct{}{}
-				s.output += name + " " + t.Name + " = \"" + k + "\"\n"
+				s.output += name + " " + typeName + " = \"" + k + "\"\n"
 			}
 			s.output += ")\n\n"
 			s.outputEnums[t.Name] = struct{}{}
 		}
 
-		ret = t.Name
+		ret = typeName
 
 		if !nonNull {
 			ret = "*" + ret
